@@ -423,6 +423,23 @@ def run(ctx: Ctx) -> None:
                        "ddsverif/pinned_hashes.py (boundaries of the integer encodings, floats, booleans, text, None, sequences, mappings)")
     n9 = pinned_preimages(ctx, "C03.R9")
     rep.floor("C03.R9", n9, 25)
+    from .common import kinds_not_confused
+    rep.rule("C03.R13", "as C14.R12: the per-evaluation memo of variable hashes is keyed by the canonical path of the variable (names, canonical paths, store paths and signatures "
+                        "are not used in place of one another - mypy): with a memo keyed by the local name, the hash of a variable depends on which same-named variable of another "
+                        "module the evaluation happened to meet first, i.e. on the prior sequence of evaluations")
+    n13 = kinds_not_confused(ctx, "C03.R13", ("dds.introspect", "dds._introspect_indirect", "dds._retrieve_objects", "dds._eval_ctx"),
+                             "two accepted modules each define THRESHOLD: the signature of a function of the second one is computed from the value of the first one's variable, and changes "
+                             "with the order in which the evaluation met them")
+    rep.floor("C03.R13", n13, 3)
+    from .c01 import tracked_type_table
+    rep.rule("C03.R14", "as C01.R4: each structural option (accept_list / accept_dict) governs its own types only: the signature of a function that reads a dict variable does not "
+                        "depend on the option of the lists")
+    tracked_type_table(ctx, "C03.R14")
+    from .c05 import pinned_combinations
+    rep.rule("C03.R15", "the order-insensitive combiner renders the combined number as pinned (abstract evaluation of dds_hash_commut on a table of pair lists, among them lists whose "
+                        "exclusive-or starts with zero digits)")
+    n15 = pinned_combinations(ctx, "C03.R15")
+    rep.floor("C03.R15", n15, 6)
 
     # ---- R5: argument values are hashed from their own content only ----------------------------------------------
     from .c05 import hasher, all_branches, dataclass_field_source
